@@ -31,6 +31,13 @@ TRUSTED = [
     "ten of twelve engines cannot be executed here: for them 'binds' is the model's scope verdict plus sqlparser's re-parse",
 ]
 
+XPROFILE = {"sqlite": {"bare_agg": True}}       # SQLite accepts bare columns next to aggregates
+
+
+def xprofile(d):
+    return XPROFILE.get(d, A.XSTRICT)
+
+
 PROFILE = {"sqlite": {"al_where": True, "al_group": True, "al_having": True, "al_order_nested": True, "zero_cols": False},
            "postgres": dict(A.STRICT, zero_cols=True)}
 
@@ -158,6 +165,7 @@ def run():
         P = profile(r["target"])
         r["diags"] = A.diag_codes(P, te, q)
         r["uses"], r["unsup"] = A.dialect_report(r["target"], q, extras)
+        r["xdiags"] = A.xdiag_codes(xprofile(r["target"]), P, te, q)
         judged.append(r)
         ck.count("scope", r["target"] + "|" + r["sql"])
         ck.stat("scope", "verdict:" + ("OK" if not r["diags"] else "Bad"))
@@ -167,21 +175,29 @@ def run():
         ck.count("dialect", r["target"] + "|" + r["sql"], nontrivial=bool(r["uses"]))
         for d_ in r["diags"][:1]:
             report(r, "scope", "emitted SQL is not well scoped: " + A.diag_text(d_, I), {"diag": list(d_), "diag_names": [I.name(x) for x in d_[1:]]})
+        ck.stat("scopex", "verdict:" + ("OK" if not r["xdiags"] else "Bad"))
+        seen_x = set()
+        for d_ in r["xdiags"]:
+            if d_[0] in seen_x:          # the first diagnostic of each kind (ambiguity / frame / grouping are independent defects)
+                continue
+            seen_x.add(d_[0])
+            report(r, "scopex", "emitted SQL does not bind: " + A.diag_text(d_, I), {"diag": list(d_), "diag_names": [I.name(x) for x in d_[1:]]})
         for u in r["unsup"][:1]:
             report(r, "dialect", "emitted SQL uses a construct %s does not accept: %s" % (r["target"], A.construct_text(u)), {"construct": list(u)})
     # Coq evaluation: every case the mirror judges Bad (capped) + a random sample of the rest
-    bad = [r for r in judged if r["diags"] or r["unsup"]]
-    good = [r for r in judged if not (r["diags"] or r["unsup"])]
+    bad = [r for r in judged if r["diags"] or r["unsup"] or r["xdiags"]]
+    good = [r for r in judged if not (r["diags"] or r["unsup"] or r["xdiags"])]
     rng.shuffle(bad)
     rng.shuffle(good)
     sample = bad[: ck.n(150, 1500)] + good[: ck.n(350, 4000)]
     if pr["ok"] or "error" not in info:
-        header = ("From Coq Require Import List NArith.\nFrom PV Require Import Lib.ListX Model.SqlAst Model.SqlScope Model.DialectFeat.\n"
+        header = ("From Coq Require Import List NArith.\nFrom PV Require Import Lib.ListX Model.SqlAst Model.SqlScope Model.SqlScopeX Model.DialectFeat.\n"
                   "Import ListNotations.\nLocal Open Scope N_scope.\n")
         exprs = []
         for r in sample:
-            exprs.append("(diag_codes %s %s %s, dialect_report %s %s %s)" % (
-                A.coq_prof(profile(r["target"])), A.coq_te(te), A.coq_query(r["q"]), coq_codes(r["target"]).replace("%N", ""), A.coq_query(r["q"]), A.coq_extras(r["extras"])))
+            exprs.append("(let q := %s in (diag_codes %s %s q, dialect_report %s q %s, xdiag_codes %s %s %s q))" % (
+                A.coq_query(r["q"]), A.coq_prof(profile(r["target"])), A.coq_te(te), coq_codes(r["target"]).replace("%N", ""), A.coq_extras(r["extras"]),
+                A.coq_xprof(xprofile(r["target"])), A.coq_prof(profile(r["target"])), A.coq_te(te)))
         try:
             vals = coq_eval(header, exprs)
         except RuntimeError as ex:
@@ -194,9 +210,10 @@ def run():
                 cd = [tuple(x) for x in v[0]]
                 cu = [tuple(x) for x in v[1][0]]
                 cx = [tuple(x) for x in v[1][1]]
-                if cd != [tuple(x) for x in r["diags"]] or cu != [tuple(x) for x in r["uses"]] or cx != [tuple(x) for x in r["unsup"]]:
+                cxd = [tuple(x) for x in v[2]]
+                if cd != [tuple(x) for x in r["diags"]] or cu != [tuple(x) for x in r["uses"]] or cx != [tuple(x) for x in r["unsup"]] or cxd != [tuple(x) for x in r["xdiags"]]:
                     ck.violation("python mirror and Coq model disagree on %s" % r["sql"][:200],
-                                 {"kind": "mirror-mismatch", "sql": r["sql"], "target": r["target"], "coq": [cd, cu, cx], "mirror": [r["diags"], r["uses"], r["unsup"]]})
+                                 {"kind": "mirror-mismatch", "sql": r["sql"], "target": r["target"], "coq": [cd, cu, cx, cxd], "mirror": [r["diags"], r["uses"], r["unsup"], r["xdiags"]]})
             ck.coverage["coq_cross_validated"] = len(sample)
 
     # ------------------------------------------------------------------ (c) SQLite prepare/run for sqlite and generic
